@@ -133,3 +133,17 @@ func ZZ_C12_goldilocks_scalar_leftShift() {
 	got := zzWAdd(zzWLE64(z[:]), zzWMulC(zzWU(high), "0x10000000000000000000000000000000000000000000000000000000000000000000000000000000000000000000000000000000000000000"))
 	zzAssert(zzWEq(got, want), "leftShift: high*2^448 + z' = z*2^64 + low")
 }
+
+// C11: decoding into a previously used scalar gives the same result as decoding into a fresh one
+//
+//zz: prop=C11 tier=quick backend=bv timeout=120
+func ZZ_C11_goldilocks_Scalar_FromBytes_into_used() {
+	n := zzPick("n", 0, 1, 3, 8, 47, 48, 49, 55, 56, 57, 64)
+	x := make([]byte, n)
+	zzFill("x", x)
+	var used, fresh Scalar
+	zzFill("previous", &used)
+	used.FromBytes(x)
+	fresh.FromBytes(x)
+	zzAssert(used == fresh, "FromBytes into a used scalar = FromBytes into a fresh scalar")
+}
